@@ -231,6 +231,7 @@ func init() {
 		l3Unit("scalars", map[string]int{"KINDS": 15, "DEPTH": 0, "NUMSHAPES": 2, "STRSHAPES": 2}, "C04.", "required/optional x nullable x inline/$ref for scalar properties"),
 		l3Unit("maps-enums-formats", l3Enums, "C04.", "required/optional typed maps, enums, untyped and format-typed properties"),
 		l3Unit("nested-objects", l3Objects, "C04.", "required members of a nested object (which is itself required or optional)"),
+		l3Unit("nested-objects/required-list-with-an-undeclared-key", mergeParams(l3Objects, map[string]int{"GHOSTREQ": 1, "MARSHAL": 0}), "C04.", "a nested object whose required list also names a key it does not declare, before or after the declared member: the declared member stays required or optional exactly as listed"),
 		Unit{Name: "allOf/required-of-every-branch", Harness: "pkg/generator:HarnessC11", Layer: "L3", Only: "C04.",
 			Desc:   "allOf of two object branches (inline or $ref, every order) over the property names {a, b}, and allOf whose branches all declare the same object-valued property o with their own required member: a key required by any branch, at the top or inside o, must be present (documents valid in every other respect)",
 			Bounds: "B=2 branches; regions of the recorded finding allOf-same-keyword-first-branch-wins are excluded",
@@ -525,6 +526,11 @@ func init() {
 			u.Only = "C04."
 			u.Desc = "the sibling-name families of C14 seen through C04: every name is required; with all keys present the document is accepted, with any one of them missing it is rejected, whatever characters the names contain (%, white space, separators, suffix look-alikes)"
 			properties["C04"].Units = append(properties["C04"].Units, u)
+			u.Only = "C01."
+			u.Name = "colliding-sibling-names/with-explicit-identifiers"
+			u.Desc = "the sibling-name families of C14 seen through C01, where one sibling may name its Go field itself (goJSONSchema.identifier) with the very identifier another sibling's key normalises to: the emitted struct still type-checks (no duplicate field)"
+			u.Quick = mergeParams(u.Quick, map[string]int{"EXTID": 1, "COMPILEONLY": 1})
+			properties["C01"].Units = append(properties["C01"].Units, u)
 		}
 	}
 	for _, u := range properties["C12"].Units {
